@@ -106,6 +106,91 @@ fn evaluate(case: &Case) -> (Outcome, oracle::Analysis, Option<String>) {
     (out, an, c19sig)
 }
 
+/// Systematic single-preemption sweep: the case is first run under the default rule (keep running, lowest id when
+/// blocked, bounded unfairness), recording every point at which another runnable thread existed; then once per such
+/// (point, other thread) pair with exactly that one switch forced. One summary line for the whole sweep.
+fn run_preempt1(case: &Case, prop: &str, dump: Option<&str>) -> Value {
+    let mut base = case.clone();
+    base.plan = sched::Plan::Scripted { decisions: vec![], oversleeps: vec![] };
+    base.params.record_opps = true;
+    let (out0, an0, _) = evaluate(&base);
+    let mut sum = summarise(&base, &out0, &an0, prop);
+    let mut evals = 1u64;
+    let mut keys = vec![format!("{:016x}|{:016x}", base.workload_hash(), out0.sig)];
+    let mut dumped = an0.viols.iter().any(|v| v.prop == prop);
+    if dumped {
+        if let Some(d) = dump {
+            let path = format!("{}/{}-{}.case.json", d, prop, case.seed);
+            let mut b2 = base.clone();
+            b2.params.record_opps = false;
+            let _ = std::fs::write(&path, serde_json::to_string_pretty(&b2.to_json()).unwrap());
+        }
+    }
+    let mut viols: Vec<Value> = sum["viols"].as_array().cloned().unwrap_or_default();
+    let mut faults: BTreeMap<String, u64> = BTreeMap::new();
+    let mut probes: BTreeMap<String, u64> = BTreeMap::new();
+    let add_maps = |s: &Value, faults: &mut BTreeMap<String, u64>, probes: &mut BTreeMap<String, u64>| {
+        for (k, v) in s["faults"].as_object().unwrap() {
+            *faults.entry(k.clone()).or_insert(0) += v.as_u64().unwrap_or(0);
+        }
+        for (k, v) in s["probes"].as_object().unwrap() {
+            *probes.entry(k.clone()).or_insert(0) += v.as_u64().unwrap_or(0);
+        }
+    };
+    add_maps(&sum, &mut faults, &mut probes);
+    let (mut steps, mut switches, mut polls, mut sim_ns, mut gos, mut answered, mut inconcl) = (out0.steps, out0.switches, out0.polls, out0.now, an0.accepted_gos, an0.answered_gos, 0u64);
+    for opp in out0.opps.iter().take(1500) {
+        let mut c2 = case.clone();
+        c2.plan = sched::Plan::Scripted { decisions: vec![opp.clone()], oversleeps: vec![] };
+        let (o, a, _) = evaluate(&c2);
+        evals += 1;
+        *faults.entry("forced single preemption".into()).or_insert(0) += 1;
+        let s2 = summarise(&c2, &o, &a, prop);
+        add_maps(&s2, &mut faults, &mut probes);
+        keys.push(format!("{:016x}|{:016x}", c2.workload_hash(), o.sig));
+        steps += o.steps;
+        switches += o.switches;
+        polls += o.polls;
+        sim_ns += o.now;
+        gos += a.accepted_gos;
+        answered += a.answered_gos;
+        if a.inconclusive {
+            inconcl += 1;
+        }
+        if a.viols.iter().any(|v| v.prop == prop) {
+            for v in s2["viols"].as_array().unwrap() {
+                if !viols.iter().any(|x| x["rule"] == v["rule"]) {
+                    viols.push(v.clone());
+                }
+            }
+            if !dumped {
+                dumped = true;
+                if let Some(d) = dump {
+                    let path = format!("{}/{}-{}.case.json", d, prop, case.seed);
+                    let _ = std::fs::write(&path, serde_json::to_string_pretty(&c2.to_json()).unwrap());
+                }
+            }
+        }
+    }
+    keys.sort();
+    keys.dedup();
+    sum["viols"] = json!(viols);
+    sum["evals"] = json!(evals);
+    sum["distinct_keys"] = json!(keys);
+    sum["faults"] = json!(faults);
+    sum["probes"] = json!(probes);
+    sum["steps"] = json!(steps);
+    sum["switches"] = json!(switches);
+    sum["polls"] = json!(polls);
+    sum["sim_ns"] = json!(sim_ns);
+    sum["gos"] = json!(gos);
+    sum["answered"] = json!(answered);
+    sum["inconclusive"] = json!(false);
+    sum["inconclusive_sub"] = json!(inconcl);
+    sum["policy"] = json!("single-preemption sweep");
+    sum
+}
+
 /// one summary line per run (JSON)
 fn summarise(case: &Case, out: &Outcome, an: &oracle::Analysis, prop: &str) -> Value {
     let mine: Vec<&oracle::Viol> = an.viols.iter().filter(|v| v.prop == prop).collect();
@@ -115,7 +200,7 @@ fn summarise(case: &Case, out: &Outcome, an: &oracle::Analysis, prop: &str) -> V
         o.dedup();
         o
     };
-    let nontrivial = an.accepted_gos > 0 && out.polls > 0;
+    let nontrivial = oracle::nontrivial_for(prop, case, out, an);
     json!({
         "seed": case.seed,
         "family": case.family,
@@ -184,6 +269,12 @@ fn main() {
                 let seed = base + i;
                 let case = workload::gen(&prop, seed, thorough);
                 std::println!("BEGIN {}", seed);
+                if case.has_tag("preempt1") {
+                    let s = run_preempt1(&case, &prop, dump.as_deref());
+                    std::println!("RUN {}", s);
+                    i += stride;
+                    continue;
+                }
                 let (out, an, c19sig) = evaluate(&case);
                 let mut s = summarise(&case, &out, &an, &prop);
                 if let Some(sig) = c19sig {
